@@ -694,13 +694,18 @@ func main() {
 		}
 		return r
 	}
-	o.Put(rwxCase(0, hs(2), hs(1)))
-	for i := 0; i < *nrwx; i++ {
+	first := rwxCase(0, hs(2), hs(1))
+	o.Put(first)
+	for i := 0; i < *nrwx && !strings.Contains(first.Panic, "hang"); i++ {
 		idx := uint64(r.Intn(40))
 		if r.Intn(5) == 0 {
 			idx = r.U64()
 		}
-		o.Put(rwxCase(idx, hs(r.Intn(5)), hs(r.Intn(5))))
+		rec := rwxCase(idx, hs(r.Intn(5)), hs(r.Intn(5)))
+		o.Put(rec)
+		if strings.Contains(rec.Panic, "hang") {
+			break // a hung call keeps spinning: one concrete case is enough
+		}
 	}
 	// (d) right witnesses: all positions 0..n+1
 	for n := 0; n <= *rwmax; n++ {
